@@ -878,14 +878,31 @@ pub fn run(ctx: &mut Ctx) -> Report {
         let big: Vec<u8> = (0..big_len).map(|i| if i % 977 == 0 { (i % 4) as u8 } else { unit[i % unit.len()] }).collect();
         // repeat-bearing follow-up blocks (tandem duplications of >= 64 symbols)
         let mut follow: Vec<Vec<u8>> = vec![];
-        for _ in 0..4 {
-            let base: Vec<u8> = (0..rng.range(200, 4000)).map(|_| rng.below(4) as u8).collect();
-            let mut v = base.clone();
-            for _ in 0..rng.range(1, 4) {
-                let a = rng.below((base.len() - 100) as u64) as usize;
-                let l = rng.range(64, (base.len() - a) as u64) as usize;
-                v.extend_from_slice(&base[a..a + l]);
-                v.extend((0..rng.range(0, 50)).map(|_| rng.below(4) as u8));
+        for f in 0..4 {
+            let mut v: Vec<u8> = (0..rng.range(200, 4000)).map(|_| rng.below(4) as u8).collect();
+            if f % 2 == 0 {
+                // short exact copies
+                let base = v.clone();
+                for _ in 0..rng.range(1, 4) {
+                    let a = rng.below((base.len() - 100) as u64) as usize;
+                    let l = rng.range(64, (base.len() - a) as u64) as usize;
+                    v.extend_from_slice(&base[a..a + l]);
+                    v.extend((0..rng.range(0, 50)).map(|_| rng.below(4) as u8));
+                }
+            } else {
+                // diverged tandem copies of a kb-scale unit (what long-distance matching picks up)
+                for unit_len in [1600usize, 2000, 2400] {
+                    let unit: Vec<u8> = (0..unit_len).map(|_| rng.below(4) as u8).collect();
+                    for _ in 0..6 {
+                        let mut c = unit.clone();
+                        for _ in 0..4 {
+                            let p = rng.below(unit_len as u64) as usize;
+                            c[p] = (c[p] + 1 + rng.below(3) as u8) % 4;
+                        }
+                        v.extend_from_slice(&c);
+                    }
+                    v.extend((0..4000).map(|_| rng.below(4) as u8));
+                }
             }
             follow.push(v);
         }
